@@ -2,6 +2,7 @@ package main
 
 import (
 	"fmt"
+	"sort"
 	"go/ast"
 	"go/token"
 	"go/types"
@@ -96,6 +97,10 @@ func (u *Unit) freshParam(st *State, v *types.Var) Term {
 	t := Term{S: nm, Sort: s, T: v.Type(), Signed: isSigned(v.Type())}
 	st.vars[v] = t
 	u.inputs = append(u.inputs, ModelVar{Name: v.Name(), Term: nm})
+	u.g.Pre.add("(declare-fun fresh$ (Int) Bool)")
+	for _, c := range u.g.refComponents(nm, v.Type(), u.bv, 0) {
+		u.defs = append(u.defs, app("not", app("fresh$", c)))
+	}
 	return t
 }
 
@@ -139,7 +144,6 @@ func (g *Gen) verifyFunc(key string) {
 	st := u.entryState()
 	u.assumeWF(st)
 	u.entry = st.clone()
-	u.entry.heaps = st.heaps // share so that lazily created initial heaps are visible as old
 	u.runBody(st, fd.Body.List)
 }
 
@@ -280,42 +284,67 @@ func (u *Unit) finish() {
 			o.Inputs = append(append([]ModelVar{}, u.inputs...), u.g.replayInputs(u)...)
 		}
 	}
-	// frame: heaps outside the modifies clause are unchanged at every exit
-	if len(b.clauses("modifies")) > 0 || b.Flags["pure"] != "" || hasFlag(b, "pure") {
-		allowed := map[string]bool{}
-		star := false
-		for _, c := range b.clauses("modifies") {
-			for _, h := range strings.Fields(c.Text) {
-				if h == "*" {
-					star = true
-				}
-				allowed[h] = true
+	// frame: what is written outside the modifies clause is unchanged on pre-existing objects
+	if len(b.clauses("modifies")) > 0 || hasFlag(b, "pure") || hasFlag(b, "frame") {
+		u.frameObligations(b, u.exits, u.entry, u.bodyPos, u.contractID())
+	}
+}
+
+func (u *Unit) frameObligations(b *Block, exits []*Exit, entry *State, pos token.Pos, id string) {
+	allowedAll := map[string]bool{}
+	except := map[string][]string{}
+	star := false
+	for _, c := range b.clauses("modifies") {
+		for _, item := range splitTopSpaces(c.Text) {
+			if item == "*" {
+				star = true
+				continue
+			}
+			ce := u.specEv(entry, pos)
+			ce.old = entry
+			name, _, ref, ok := ce.modItem(item, ce)
+			if !ok {
+				continue
+			}
+			if ref == "" {
+				allowedAll[name] = true
+			} else {
+				except[name] = append(except[name], ref)
 			}
 		}
-		if !star {
-			var parts []string
-			var names []string
-			for h := range u.writes {
-				if allowed[h] {
-					continue
-				}
-				init, ok := u.inits[h]
-				if !ok {
-					continue
-				}
-				names = append(names, h)
-				for _, ex := range u.exits {
-					if cur, ok := ex.st.heaps[h]; ok && cur.S != init.S {
-						// writes to freshly allocated objects are allowed: compare on non-fresh refs only
-						parts = append(parts, pathImp(ex.st.pc, fmt.Sprintf("(forall ((r Int)) (=> (not (fresh$ r)) (= (select %s r) (select %s r))))", cur.S, init.S)))
-					}
-				}
-			}
-			if len(parts) > 0 {
-				u.g.Pre.add("(declare-fun fresh$ (Int) Bool)")
-				u.addMerged(fmt.Sprintf("%s/frame", u.contractID()), u.props, parts, "heaps written outside modifies clause unchanged on pre-existing objects: "+strings.Join(names, " "))
+	}
+	if star {
+		return
+	}
+	var parts []string
+	var names []string
+	var hs []string
+	for h := range u.writes {
+		hs = append(hs, h)
+	}
+	sort.Strings(hs)
+	for _, h := range hs {
+		if allowedAll[h] || strings.HasPrefix(h, "B$") {
+			continue
+		}
+		init, ok := u.inits[h]
+		if !ok {
+			continue
+		}
+		names = append(names, h)
+		var ex []string
+		for _, r := range except[h] {
+			ex = append(ex, smtNot(smtEq("r", r)))
+		}
+		for _, e := range exits {
+			if cur, ok := e.st.heaps[h]; ok && cur.S != init.S {
+				parts = append(parts, pathImp(e.st.pc, fmt.Sprintf("(forall ((r Int)) (=> %s (= (select %s r) (select %s r))))", smtAnd(append([]string{"(not (fresh$ r))"}, ex...)...), cur.S, init.S)))
 			}
 		}
+	}
+	if len(parts) > 0 {
+		u.g.Pre.add("(declare-fun fresh$ (Int) Bool)")
+		u.addMerged(id+"/frame", u.props, parts, "objects outside the modifies clause are unchanged (pre-existing objects): "+strings.Join(names, " "))
 	}
 }
 
@@ -343,8 +372,13 @@ func (g *Gen) axiomsText(u *Unit) string {
 		}
 	}
 	var sb strings.Builder
+	if extra["MULNEG_8"] || extra["MULNEG_32"] || extra["MULNEG_64"] {
+		for _, w := range []int{8, 32, 64} {
+			g.Pre.add(fmt.Sprintf("(declare-fun go_bvmul%d ((_ BitVec %d) (_ BitVec %d)) (_ BitVec %d))", w, w, w, w))
+		}
+	}
 	for _, k := range sortedKeys(ax) {
-		if (strings.HasPrefix(k, "MONO_") || strings.HasPrefix(k, "AMD64_")) && !extra[k] {
+		if (strings.HasPrefix(k, "MONO_") || strings.HasPrefix(k, "AMD64_") || strings.HasPrefix(k, "MULNEG_")) && !extra[k] {
 			continue
 		}
 		if strings.HasPrefix(k, "AMD64_") {
@@ -461,7 +495,6 @@ func (g *Gen) verifyCaseX(b *Block, unreachable bool) {
 	st := u.entryState()
 	u.assumeWF(st)
 	u.entry = st.clone()
-	u.entry.heaps = st.heaps
 	u.runBody(st, fd.Body.List)
 	if !unreachable {
 		u.finishCase()
@@ -505,6 +538,22 @@ func (u *Unit) finishCase() {
 		return
 	}
 	pos := u.caseClause.Colon + 1
+	if ctx := u.g.C.byID[b.Target+"/context"]; ctx != nil && !hasFlag(b, "noctx") {
+		for i, c := range ctx.clauses("ensures") {
+			var parts []string
+			for _, ex := range u.caseExits {
+				e := u.specEv(ex, pos)
+				e.old = u.caseEntry
+				parts = append(parts, pathImp(ex.pc, e.evSpec(c.Text).S))
+			}
+			name := c.Name
+			if name == "" {
+				name = fmt.Sprint(i)
+			}
+			props := append([]string{}, clauseProps(ctx, c)...)
+			u.addMerged(fmt.Sprintf("%s/ctx#%s", b.ID(), name), props, parts, "every case: "+c.Text)
+		}
+	}
 	for i, c := range b.clauses("ensures") {
 		var parts []string
 		for _, ex := range u.caseExits {
